@@ -29,6 +29,9 @@ def cases(tier, seed):
                     if tier == "quick" and mo == "chain" and (N == 1 or mom == 0.0):
                         continue  # the chain is the slowest case: quick keeps N=2 with symbolic momentum and 0.5
                     out.append(dict(kind="ema", act=a, model=mo, momentum=mom, N=N))
+                    if N >= 2 and mo == "single" and mom in ("sym", 0.5):
+                        # the same history split over two successive Calibration contexts must give the same averages
+                        out.append(dict(kind="ema", act=a, model=mo, momentum=mom, N=N, split=1))
     return out
 
 
@@ -60,7 +63,7 @@ def qmods(model):
     return [(n, mod) for n, mod in model.named_modules() if isinstance(mod, QModuleMixin) and mod.activation_qtype is not None]
 
 
-def reference(model_kind, act_name, batches, momentum):
+def reference(model_kind, act_name, batches, momentum, split=None):
     """plain-quanto run + float64 reference recurrence; returns list of (name, which, got, expected, history)"""
     from optimum.quanto import Calibration
     from optimum.quanto.tensor import QBytesTensor
@@ -73,8 +76,18 @@ def reference(model_kind, act_name, batches, momentum):
     actual = {(n, w): [] for n, _ in mods for w in ("in", "out")}
     amax = {}
     adopted = {}
-    with torch.no_grad(), Calibration(momentum=momentum, streamline=(model_kind == "chain-streamline")):
-        for x in batches:
+    import contextlib
+
+    stack = contextlib.ExitStack()
+    stack.enter_context(torch.no_grad())
+    ctxs = contextlib.ExitStack()
+    ctxs.enter_context(Calibration(momentum=momentum, streamline=(model_kind == "chain-streamline")))
+    with stack:
+        for bi, x in enumerate(batches):
+            if split is not None and bi == split:
+                ctxs.close()
+                ctxs = contextlib.ExitStack()
+                ctxs.enter_context(Calibration(momentum=momentum, streamline=(model_kind == "chain-streamline")))
             model(x)
             for n_, mod_ in mods:
                 actual[(n_, "in")].append(float(mod_.input_scale))
@@ -100,6 +113,7 @@ def reference(model_kind, act_name, batches, momentum):
                     cur = mod.forward(cur)
                 else:
                     cur = mod(cur) if not any(mod is mm for _, mm in qmods(model)) else mod.forward(cur)
+        ctxs.close()
     out = []
     for n, mod in mods:
         if mod.activation_qtype is None:
@@ -146,8 +160,14 @@ def run_case(case, res):
             else:
                 Mv, mom = None, case["momentum"]
             raws, ins = {}, {}
-            with torch.no_grad(), Calibration(momentum=mom, streamline=(kind == "chain-streamline")):
+            import contextlib
+
+            with torch.no_grad(), contextlib.ExitStack() as ctxs:
+                ctxs.enter_context(Calibration(momentum=mom, streamline=(kind == "chain-streamline")))
                 for t, x in enumerate(xs):
+                    if case.get("split") is not None and t == case["split"]:
+                        ctxs.close()  # leave the first calibration context, enter a second one
+                        ctxs.enter_context(Calibration(momentum=mom, streamline=(kind == "chain-streamline")))
                     model(x)
                     cur = x
                     for n, mod in model.named_children():
@@ -167,7 +187,7 @@ def run_case(case, res):
         return m, info
 
     def enc(xs, momv):
-        return dict(batches=[api.enc_tensor(x) for x in xs], momentum=float(momv), model=kind, act=case["act"])
+        return dict(batches=[api.enc_tensor(x) for x in xs], momentum=float(momv), model=kind, act=case["act"], split=case.get("split"))
 
     xs, mom_t = seeds0()
     queue = [(xs, mom_t)]
@@ -285,13 +305,13 @@ def replay(rec):
     inp = rec["inputs"]
     batches = [api.dec_tensor(b) for b in inp["batches"]]
     mom = inp["momentum"]
-    rows = reference(inp["model"], inp["act"], batches, mom)
-    rows09 = reference(inp["model"], inp["act"], batches, 0.9) if mom != 0.9 else rows
+    rows = reference(inp["model"], inp["act"], batches, mom, inp.get("split"))
+    rows09 = reference(inp["model"], inp["act"], batches, 0.9, inp.get("split")) if mom != 0.9 else rows
     bad, keys = [], set()
     for (n, w, got, exp, hist, act_, amx), (_, _, got9, exp9, _, _, _) in zip(rows, rows09):
         if exp is None:
             continue
-        tol = 1e-5 * max(abs(exp), amx) + 1e-30
+        tol = 1e-5 * max(abs(exp), amx) + 4 * 2.0**-149
         if abs(got - exp) > tol:
             bad.append(f"{n}.{w}_scale = {got!r}, momentum-{mom} average of the batch ranges is {exp!r} (history {hist})")
             if any(h == 1.0 for h in list(hist[:-1]) + list(act_[:-1])):
